@@ -233,7 +233,8 @@ pub fn finish(args: ReportArgs, m: MetaView, cases: &[Params], items: &[(usize, 
             "scenario_cases": items.len(), "symbolic_paths": paths,
             "obligations": total.obligations, "discharged": total.discharged, "by_rule": by_rule,
             "branch_decisions": {"valid_by_solver": total.decisions_valid, "infeasible_by_solver": total.decisions_infeasible, "forks": total.forks, "generic_position_assumptions": total.assumed},
-            "solver": {"binary": std::env::var("SYMFROST_Z3").unwrap_or("/usr/bin/z3".into()), "logic": "QF_NIA with (mod _ q)", "queries": total.z3_queries, "unsat": total.z3_unsat, "sat": total.z3_sat, "unknown": total.z3_unknown, "queries_resent_after_polynomial_normalisation": total.normalized_fallbacks},
+            "solver": {"binary": std::env::var("SYMFROST_Z3").unwrap_or("/usr/bin/z3".into()), "logic": "QF_NIA with (mod _ q)", "queries": total.z3_queries, "unsat": total.z3_unsat, "sat": total.z3_sat, "unknown": total.z3_unknown, "queries_resent_after_polynomial_normalisation": total.normalized_fallbacks,
+                "cross_check": {"second_solver": std::env::var("SYMFROST_CROSS").unwrap_or("z3-new (5.1.0), thorough tier only".into()), "obligations_rechecked": total.cross_checked, "agree": total.cross_agree, "no_answer_within_cap": total.cross_unknown, "disagree": total.cross_disagree}},
             "solver_s": total.z3_ms / 1000.0,
             "q": q_hex,
             "uf_applications": total.uf_apps, "term_nodes": total.nodes, "path_models_confirmed_by_solver": total.worlds_confirmed, "naf_multiscalar_calls_decoded": total.naf_calls,
